@@ -538,8 +538,8 @@ std::vector<Json::Value> enumerate(uint64_t bseed) {
   std::vector<Json::Value> out;
   Json::Value base = baseline(bseed);
   auto add = [&](const Json::Value& fault) {
+    // the scenario (the same for every case of a baseline) is filled in by expand() when the case runs
     Json::Value c(Json::objectValue);
-    c["scenario"] = base;
     c["faults"].append(fault);
     c["baseline"] = (Json::UInt64)bseed;
     out.push_back(c);
@@ -718,6 +718,14 @@ int main(int argc, char** argv) {
       all.insert(all.end(), e.begin(), e.end());
     }
     return all;
+  };
+  d.expand = [](Json::Value& c) {
+    static std::map<uint64_t, Json::Value> bases;
+    if (c.isMember("scenario")) return;
+    uint64_t b = c["baseline"].asUInt64();
+    auto it = bases.find(b);
+    if (it == bases.end()) it = bases.emplace(b, baseline(b)).first;
+    c["scenario"] = it->second;
   };
   return harnessMain(argc, argv, d);
 }
